@@ -219,9 +219,15 @@ class Connection(ExportImport):
         assert obj._p_oid is None
         oid = obj._p_oid = oid
         obj._p_jar = self
+        try:
+            self._register(obj)
+        except:  # noqa: E722 do not use bare 'except'
+            # We could not join the transaction: the object is not ours.
+            del obj._p_jar
+            del obj._p_oid
+            raise
         if self._added_during_commit is not None:
             self._added_during_commit.append(obj)
-        self._register(obj)
         # Add to _added after calling register(), so that _added
         # can be used as a test for whether the object has been
         # registered with the transaction.
